@@ -658,7 +658,13 @@ func c06Merge(c *Ctx) {
 			ps = append(ps, c.Info.Defs[nm])
 		}
 	}
-	bp := c.NewSX().RunStmts(fl.Body.List, p.Env)
+	var capEnv map[types.Object]Term
+	for _, st := range p.Effects() {
+		if st.Call == it {
+			capEnv = st.Env
+		}
+	}
+	bp := c.NewSX().RunStmts(fl.Body.List, capEnv)
 	good := len(ps) == 2 && len(bp) == 1 && bp[0].Why == "" && len(bp[0].Conds()) == 0 && len(bp[0].Effects()) == 1
 	if good {
 		s := bp[0].Effects()[0]
